@@ -140,7 +140,10 @@ def build_atoms(n, bonds, elements):
                  bonds=bonds, bond_types=[0] * len(bonds))
 
 
-def run_pipeline(n, bonds, utypes, exclude):
+RULESETS = [None, None, [({"C_R", "N_R"}, 1.41), ({"C_R"}, 1.5)], [({"C_R", "O_2"}, 1.5), ({"Zr8f4", "O_2"}, 0.5), ({"C_2"}, 1), ({"O_3", "C_3"}, 2)]]
+
+
+def run_pipeline(n, bonds, utypes, exclude, rules=None):
     """the documented parameterisation workflow on the real functions -> atoms (or the exception from dihedral typing)"""
     import mofun.rough_uff as ru
     els = [t[0:2].replace("_", "") if t != "Du" else "H" for t in utypes]
@@ -149,11 +152,11 @@ def run_pipeline(n, bonds, utypes, exclude):
     a.dihedrals = ru.calc_dihedrals(a.bonds)
     enum = (np.asarray(a.angles).reshape(-1, 3).copy(), np.asarray(a.dihedrals).reshape(-1, 4).copy())
     ex = set(exclude) if exclude is not None else None
-    ru.assign_bond_types(a, utypes, exclude=ex)
-    ru.assign_angle_types(a, utypes, exclude=ex)
+    ru.assign_bond_types(a, utypes, bond_order_rules=rules, exclude=ex)
+    ru.assign_angle_types(a, utypes, bond_order_rules=rules, exclude=ex)
     err = None
     try:
-        ru.assign_dihedral_types(a, utypes, exclude=ex)
+        ru.assign_dihedral_types(a, utypes, bond_order_rules=rules, exclude=ex)
     except Exception as e:
         if type(e).__name__ == "PostBroken":
             raise
@@ -214,7 +217,10 @@ def run_case(case, ctx):
     def fail(msg, cls=None):
         ctx.fail(msg, witness=dict(w, clause=cls))
 
-    a, (angles, dihedrals), err = run_pipeline(n, bonds, utypes, exclude)
+    rules = RULESETS[case["s"] % len(RULESETS)]
+    if rules is not None:
+        st.count("graphs_typed_with_user_bond_order_rules")
+    a, (angles, dihedrals), err = run_pipeline(n, bonds, utypes, exclude, rules)
     st.count("graphs")
     st.seen("shape", case["shape"])
     # --- enumeration
@@ -265,7 +271,7 @@ def run_case(case, ctx):
         s = seqkey(t)
         M = per_bond[canon((t[1], t[2]))]
         try:
-            p = uffref.torsion(UFF4MOF, main_group, *s, M=M)
+            p = uffref.torsion(UFF4MOF, main_group, *s, M=M, rules=rules)
         except uffref.Unsupported:
             expect_raise = True
             continue
@@ -314,14 +320,14 @@ def run_case(case, ctx):
         for t, k in t2k.items():
             body, comment = parse_coeff(table[t])
             if kind == "bond":
-                ref = list(uffref.bond(UFF4MOF, *k))
+                ref = list(uffref.bond(UFF4MOF, *k, rules=rules))
                 okc = tuple(comment) in (k, tuple(reversed(k)))
             elif kind == "angle":
-                ref = list(uffref.angle(UFF4MOF, *k))
+                ref = list(uffref.angle(UFF4MOF, *k, rules=rules))
                 okc = tuple(comment) in (k, tuple(reversed(k)))
             else:
                 s, M = k[:4], k[4]
-                ref = list(uffref.torsion(UFF4MOF, main_group, *s, M=M))
+                ref = list(uffref.torsion(UFF4MOF, main_group, *s, M=M, rules=rules))
                 okc = tuple(comment[:4]) in (s, tuple(reversed(s))) and comment[4:] == ["M=%d" % M]
             if not nums_close(body, ref):
                 fail("%s type %d (%s): coefficient line %r, UFF form gives %s" % (kind, t, k, table[t], ref), "coefficients")
@@ -334,7 +340,7 @@ def run_case(case, ctx):
     bonds2 = [(int(perm[a_]), int(perm[b_])) if rng.integers(2) else (int(perm[b_]), int(perm[a_])) for a_, b_ in [bonds[i] for i in rng.permutation(len(bonds))]]
     utypes2 = [utypes[int(inv[j])] for j in range(n)]
     ex2 = None if exclude is None else [int(perm[i]) for i in exclude]
-    a2, _, err2 = run_pipeline(n, bonds2, utypes2, ex2)
+    a2, _, err2 = run_pipeline(n, bonds2, utypes2, ex2, rules)
     if (err is None) != (err2 is None):
         fail("dihedral typing raises for one naming of the atoms and not for another", "invariance")
     names1 = list(range(n))
@@ -386,6 +392,8 @@ def requirements(stats, tier):
         need.append("too few graphs with rings / high-degree nodes")
     if stats.get("graphs_with_dropped_dihedrals") < 10:
         need.append("dropping of undefined torsions observed fewer than 10 times")
+    if stats.get("graphs_typed_with_user_bond_order_rules") < 50:
+        need.append("graphs typed with user bond-order rules: %d" % stats.get("graphs_typed_with_user_bond_order_rules"))
     if stats.get("type_coefficients_checked") < 1000:
         need.append("too few type coefficient lines checked")
     return need
